@@ -30,36 +30,41 @@ theorem admits_iff (now : Nat) (cmd : List UInt8) (shell : Bool) (g : Grant) :
   cases shell <;> simp <;> constructor <;> intro h <;> simp_all
 
 /-- **C07 (exec).** Every command or shell action started in a grant-admitted session, in any
-history, consumed a grant that was issued (stored on the server) for exactly that session's user
-and key, that was effective and not yet expired at the time of the request, and whose kind — and
-for command grants the identical command text — matches the request. -/
+history, consumed a grant that was issued (stored on the server through `AddAuthGrant`) for
+exactly that session's user and key, that was effective and not yet expired at the time of the
+request, and whose kind — and for command grants the identical command text — matches the
+request. -/
 theorem C07_exec_matches_grant (ops : List Op) (x : Served)
     (hx : x ∈ (runW World.empty ops).served) (hu : x.usingGrant = true) (hh : x.handler = .codex) :
-    ∃ g, x.grant = some g ∧ g ∈ issued ops ∧ g.user = x.user ∧ g.key = x.key ∧
+    ∃ g, x.grant = some g ∧ g ∈ (runW World.empty ops).issued ∧ g.user = x.user ∧ g.key = x.key ∧
       g.start * ns ≤ x.now ∧ x.now < g.exp * ns ∧ Matches x g := by
-  obtain ⟨hinv, hperm⟩ := run_inv World.empty ops inv_empty
+  have hinv := run_inv World.empty ops inv_empty
   obtain ⟨g, hg⟩ := hinv.codexGranted x hx hu hh
   obtain ⟨_, _, h3, h4, h5⟩ := hinv.servedOk x hx g hg
   have hmem : g ∈ held (runW World.empty ops) := by
     simp only [held, consumed, List.mem_append, List.mem_filterMap]
     exact .inr ⟨x, hx, hg⟩
-  have : g ∈ issued ops := by
-    have := hperm.mem_iff.mp hmem
-    simpa [held, World.empty, Server.empty, allActions, consumed] using this
   obtain ⟨t1, t2, t3⟩ := (admits_iff _ _ _ _).mp h5
-  exact ⟨g, hg, this, h3, h4, t1, t2, t3⟩
+  exact ⟨g, hg, hinv.perm.mem_iff.mp hmem, h3, h4, t1, t2, t3⟩
+
+/-- grants are issued only by `grant` operations (a principal's intent accepted by the server) or
+by an intent communicated from within a session that passed `checkIntent` -/
+theorem C07_issued_sources (ops : List Op) (g : Grant) (h : g ∈ (runW World.empty ops).issued) :
+    Op.grant g ∈ ops ∨ ∃ i now ok, Op.issue i now g ok ∈ ops := by
+  rcases issued_sources World.empty ops g h with h | h
+  · simp [World.empty] at h
+  · exact h
 
 /-- **C07 (conservation).** In every reachable state each issued grant is in exactly one place:
 still in the server map, held by one session, or consumed by one started action. -/
 theorem C07_conservation (ops : List Op) :
-    (held (runW World.empty ops)).Perm (issued ops) := by
-  have := (run_inv World.empty ops inv_empty).2
-  simpa [held, World.empty, Server.empty, allActions, consumed] using this
+    (held (runW World.empty ops)).Perm (runW World.empty ops).issued :=
+  (run_inv World.empty ops inv_empty).perm
 
 /-- **C07 (single use).** Over any history, the multiset of grants consumed by started actions is
 contained in the multiset of grants issued: each grant authorizes a single action. -/
 theorem C07_single_use (ops : List Op) (g : Grant) :
-    (consumed (runW World.empty ops)).count g ≤ (issued ops).count g := by
+    (consumed (runW World.empty ops)).count g ≤ (runW World.empty ops).issued.count g := by
   have := (C07_conservation ops).count_eq g
   simp only [held, List.count_append] at this
   omega
@@ -67,7 +72,7 @@ theorem C07_single_use (ops : List Op) (g : Grant) :
 /-- a consumed grant is gone from the server map and from every session (no copy survives) -/
 theorem C07_consumed_disappear (ops : List Op) (g : Grant) :
     (runW World.empty ops).server.grants.count g + (allActions (runW World.empty ops).sessions).count g
-      = (issued ops).count g - (consumed (runW World.empty ops)).count g := by
+      = (runW World.empty ops).issued.count g - (consumed (runW World.empty ops)).count g := by
   have := (C07_conservation ops).count_eq g
   simp only [held, List.count_append] at this
   omega
@@ -76,7 +81,7 @@ theorem C07_consumed_disappear (ops : List Op) (g : Grant) :
 they name. -/
 theorem C07_key_bound (ops : List Op) (s : Session) (hs : s ∈ (runW World.empty ops).sessions)
     (g : Grant) (hg : g ∈ s.actions) : g.user = s.user ∧ g.key = s.key :=
-  (run_inv World.empty ops inv_empty).1.keyBound s hs g hg
+  (run_inv World.empty ops inv_empty).keyBound s hs g hg
 
 /-- login moves *all* grants of (user, key) out of the server map and takes the key out of the
 transport key set's list position it had -/
@@ -134,7 +139,7 @@ def C07_full : Prop :=
 /-- the partial statement that holds: it does for everything that goes through `startCodex` -/
 theorem C07_partial (ops : List Op) (x : Served) (hx : x ∈ (runW World.empty ops).served)
     (hu : x.usingGrant = true) (hh : x.handler = .codex) : ∃ g, x.grant = some g :=
-  (run_inv World.empty ops inv_empty).1.codexGranted x hx hu hh
+  (run_inv World.empty ops inv_empty).codexGranted x hx hu hh
 
 /-- the tube dispatch hands port-forwarding, grant-issuing and window-size tubes to their
 handlers whatever the session's grants are -/
@@ -154,6 +159,19 @@ theorem C07_full_false : ¬ C07_full := by
   obtain ⟨g, hg⟩ := this
   cases hg
 
+/-- the same session communicates an intent for a *shell* grant for itself; the target-side policy
+`checkIntent` has no objection, the grant is stored, and after a new login the shell runs -/
+def witness2 : List Op :=
+  [.grant witnessGrant, .login [117] 1,
+   .issue 0 (1500 * ns) ⟨gShell, [], 1000, 2000, [117], 1⟩ true,
+   .login [117] 1, .exec 1 (1600 * ns) [] true]
+
+theorem C07_escalation_witness :
+    (runW World.empty witness2).served =
+      [⟨[117], 1, true, .agc, 1500 * ns, [], false, none⟩,
+       ⟨[117], 1, true, .codex, 1600 * ns, [], true, some ⟨gShell, [], 1000, 2000, [117], 1⟩⟩] := by
+  decide
+
 /-! ### non-vacuity -/
 
 /-- a history in which a granted command runs once, in time, and only once -/
@@ -168,6 +186,7 @@ example : (runW World.empty exHist).served =
     [⟨[117], 1, true, .codex, 1500 * ns, [108, 115], false, some witnessGrant⟩] := by decide
 example : (runW World.empty exHist).sessions = [⟨true, [], [117], 1⟩] := by decide
 example : (runW World.empty exHist).server = ⟨[], []⟩ := by decide
+example : (runW World.empty exHist).issued = [witnessGrant] := by decide
 example : (runW World.empty witness).served = [⟨[117], 1, true, .pfControl, 0, [], false, none⟩] := by
   decide
 example : admits (1000 * ns) [108, 115] false witnessGrant = true := by decide
